@@ -874,7 +874,12 @@ func (p *parser) parseConditionalExpression() ast.Expression {
 		}
 		p.next()
 
+		// The middle operand is a full AssignmentExpression, "in" included,
+		// even inside a for initialiser (ES5 11.12).
+		allowIn := p.scope.allowIn
+		p.scope.allowIn = true
 		consequent := p.parseAssignmentExpression()
+		p.scope.allowIn = allowIn
 		if p.mode&StoreComments != 0 {
 			p.comments.Unset()
 		}
